@@ -23,7 +23,7 @@ CHECKS = {
     "C01": dict(technique="property-based testing (Hypothesis): in-situ re-instantiation of every component + real-valued 5-point numerical differentiation with Richardson error control; residual/linear-solve identities for implicit components",
                 level=_LVL + "every component instance of hundreds of generated public-group models is judged per input direction.",
                 note="Trusts real-valued finite differences with an error estimate (inconclusive when the estimate is poor), rtol 1e-6; admissible perturbations only; documented non-smooth points avoided by construction."),
-    "C02": dict(technique="property-based testing (Hypothesis): differential fwd vs rev vs numerical differentiation of the converged analysis vs alternative linear solvers",
+    "C02": dict(technique="property-based testing (Hypothesis): differential fwd vs rev vs numerical differentiation of the converged analysis vs alternative linear solvers, fwd/rev block-Gauss-Seidel agreement",
                 level=_LVL + "totals of generated aero / structural / aerostructural / multipoint models in both modes and three linear solvers.",
                 note="Numerical differentiation of run_model with the coupled solver tightened to 1e-12; non-converging alternative solvers are inconclusive; block-scaled tolerances 1e-5 (tube/aero) / 5e-4 (fd-declared wingbox chain)."),
     "C03": dict(technique="stateful property-based testing (Hypothesis rule-based state machine) against a model = freshly built problem",
@@ -31,7 +31,7 @@ CHECKS = {
                 note="Upstream: OpenMDAO's check_partials overwrites declared-constant sub-Jacobians; after a check_partials only non-constant partials and outputs are judged. Tolerance 1e-9 (2e-8 aerostructural)."),
     "C04": dict(technique="property-based testing (Hypothesis): differential half-span vs mirrored full-span model",
                 level=_LVL + "aero and aerostructural pairs incl. ground effect via explicit images; two recorded findings run as probes.",
-                note="Constant B-spline distributions; KS failure not compared (ln2/rho by definition); point-mass leakage of the documented all-node weighting added to the tolerance; 1e-9 / 1e-7."),
+                note="Constant B-spline distributions; KS failure not compared (ln2/rho by definition); the by-construction difference of the documented all-node point-mass weighting is predicted (response to the leaked nodal loads) and added to the tolerance; symmetry flags as Python or numpy booleans; 1e-9 / 1e-7."),
     "C05": dict(technique="property-based testing (Hypothesis) against an independent reference model (loop-based Biot-Savart VLM) + invariants",
                 level=_LVL + "multi-surface configurations compared entry-by-entry with an independently written vortex-lattice solver plus residual/tangency invariants.",
                 note="Trusts oasv/ref_vlm.py (extended-precision textbook kernels) and the documented modelling conventions it shares with OAS; tolerance 1e-9 relative."),
@@ -42,25 +42,25 @@ CHECKS = {
                 level=_LVL + "asymmetric full-span aero models vs their mirror image, symmetric full-span aerostructural models, left/right half models through the Geometry group.",
                 note="Three recorded findings (wingbox stresses, right-half sweep/dihedral/taper, right-half Rotate) run as probes with exact-signature keys; 1e-9 / 1e-7."),
     "C08": dict(technique="property-based testing (Hypothesis): reference model with explicit images + differential (explicit image surfaces in free air) + limit",
-                level=_LVL + "ground-effect configurations vs method-of-images in two independent realisations, decay ladder to the free-air limit, rejection without symmetry.",
+                level=_LVL + "ground-effect configurations vs method-of-images in two independent realisations, far-field bound and limit of the difference from free air over a ladder of heights, rejection without symmetry (alone and next to a valid ground-effect surface).",
                 note="Zero sideslip; tolerance for image circulations widened by the round-off of an image lattice at 2h; 1e-9."),
     "C09": dict(technique="property-based testing (Hypothesis): differential against the incompressible solver on the Prandtl-Glauert-transformed geometry + limit/continuity",
                 level=_LVL + "PG identity, Mach-0 identity and Lipschitz continuity in Mach per configuration.",
-                note="Rotation rates excluded (statement silent); incompressible solver tied to the reference by C05; 1e-9."),
+                note="Rotation rates excluded from the transformation identity (statement silent) but included in the Mach-0 identity; incompressible solver tied to the reference by C05; 1e-9."),
     "C10": dict(technique="property-based testing (Hypothesis) against an independent reference model (3-D Euler-Bernoulli frame, stiffness and force method), closed forms, algebraic laws",
                 level=_LVL + "generated beams/loads vs two independent frame solutions, textbook cantilevers, linearity, Maxwell-Betti, rotation invariance.",
-                note="Forward tolerance max(1e-7, 100 eps cond); equilibrium backward error 1e-7; local-triad convention is an input of the reference; right-half clamp is a recorded finding (probe)."),
+                note="Section properties from wind-tunnel-model to transport scale; forward tolerance max(1e-7, 100 eps cond); equilibrium backward error max(1e-7, 10 eps cond); local-triad convention is an input of the reference; right-half clamp is a recorded finding (probe)."),
     "C11": dict(technique="property-based testing (Hypothesis): conservation invariants and exact rigid-motion relations",
                 level=_LVL + "sum of forces / moments about drawn points for load transfer and mesh-point forces, bitwise/exact/first-order displacement transfer.",
-                note="force 1e-12, moment 1e-10 relative; rotation bound derived from the formula."),
+                note="Inputs declared in SI or other user units; force 1e-12, moment 1e-10 relative; rotation bound derived from the formula."),
     "C12": dict(technique="stateful property-based testing (Hypothesis rule-based state machine): out-of-solver consistency oracle + model = default-solver fresh problem",
-                level=_LVL + "histories of solver changes, state perturbations, point changes over a live multipoint aerostructural problem; stiff-limit sub-check.",
+                level=_LVL + "histories of solver changes, state perturbations, point changes over a live multipoint aerostructural problem (spar location over [0,1], rotational points); first-principles static equivalence of the converged loads; stiff-limit sub-check.",
                 note="Non-default solvers that do not converge are inconclusive; lifting flight points only; 5e-9."),
     "C13": dict(technique="property-based testing (Hypothesis) against independent re-statements of the documented transformations + invariants",
-                level=_LVL + "nine transformation components alone and the Geometry group on generated meshes, B-spline constancy.",
+                level=_LVL + "nine transformation components alone, the Geometry group (with and without the <name>_dv switches) and GeometryMesh alone on generated meshes, B-spline constancy.",
                 note="Twist-axis convention taken from the code; Rotate no-op defect is a recorded finding (probe); 1e-10."),
     "C14": dict(technique="property-based testing (Hypothesis) with validity predicates + coverage-guided fuzzing (atheris) of the same predicates",
-                level=_LVL + "mesh generators, getFullMesh round trips, multi-section stitching/unification; atheris campaign with fixed -seed/-runs.",
+                level=_LVL + "mesh generators (all tabulated CRM variants restated from the table; repeatable, dictionary untouched), getFullMesh round trips, multi-section stitching/unification; atheris campaign with fixed -seed/-runs.",
                 note="Multi-section sweep unit/sign and gen-meshes double application are not asserted (murky semantics); single-section unification is a recorded finding."),
     "C15": dict(technique="property-based testing (Hypothesis): closed-form oracles, algebraic laws (homogeneity, rigid-body nullspace), KS bounds",
                 level=_LVL + "generated beams/displacement fields/section data incl. stress magnitudes to 1e12 Pa and up to 2000 elements.",
@@ -72,13 +72,13 @@ CHECKS = {
                 level=_LVL + "functionals and groups vs re-statements; atmosphere vs analytic model within table rounding.",
                 note="Atmosphere tolerances 1e-5..5e-4 (2e-3 at lapse-rate kinks / above 95 kft: Akima smoothing of the table)."),
     "C18": dict(technique="property-based testing (Hypothesis): metamorphic / monotonicity relations, onset location, discretisation independence",
-                level=_LVL + "viscous and wave drag components and switches through AeroPoint.",
+                level=_LVL + "viscous and wave drag components and switches through AeroPoint, group-level Korn relation for the reported lift coefficient (CL0 != 0).",
                 note="Raymer correlations are not re-derived; like-with-like symmetry flag (C04 wave finding untouched)."),
-    "C19": dict(technique="property-based testing (Hypothesis): metamorphic (permutation, splitting, far surface) + differential MPhys chain vs native + permutation/adjoint identities",
-                level=_LVL + "surface lists, splits, sections, far surfaces, hand-composed MPhys chain.",
+    "C19": dict(technique="property-based testing (Hypothesis): metamorphic (permutation, splitting, far surface) + differential MPhys chain vs native + permutation/adjoint/accumulation identities + model-based check of the MPhys builder",
+                level=_LVL + "surface lists, splits, sections, far surfaces, hand-composed MPhys chain incl. the mesh multiplexer (user meshes of other dtypes), sequences of builders in one process.",
                 note="MPhys AeroCouplingGroup cannot be set up without MPI; the chain Demux->AeroSolverGroup->Mux->AeroFuncsGroup is composed by hand."),
     "C20": dict(technique="property-based testing (Hypothesis) with fault injection, both directions + stateful interleaving machine; atheris target stand-alone",
-                level=_LVL + "listed faults must raise, valid twins must not; finiteness/repeatability/non-mutation; interleaved independent problems.",
+                level=_LVL + "listed faults must raise, valid twins must not (near-miss unknown keys included); finiteness/repeatability/non-mutation of the whole user dictionary (entries changed, keys added); interleaved independent problems.",
                 note="Only the listed fault classes are asserted; unlisted malformations are tallied."),
 }
 import os as _os
